@@ -586,6 +586,12 @@ def minimize_subcircuits(
             logger.debug("Lower subcircuit search is out of time")
             continue
 
+        if len(set(new_subcircuit.outputs)) != len(new_subcircuit.outputs):
+            # Two outputs agree on all possible inputs assignments and are computed
+            # by one gate, but a gate can't get the labels of both of them.
+            logger.debug("Outputs of the subcircuit are equivalent")
+            continue
+
         input_labels_mapping: dict[Label, Label] = {}
         output_labels_mapping: dict[Label, Label] = {}
 
